@@ -36,7 +36,8 @@ def nontrivial(case, impl):
 def equal(case, impl, model):
     # exact comparison; additionally an invariance or specification failure is a failing input even when
     # implementation and model agree with each other
-    if "INV-DIFF" in impl or "INV-DIFF" in model or "MODEL-SPEC-MISMATCH" in model:
+    if ("INV-DIFF" in impl or "INV-DIFF" in model or "MODEL-SPEC-MISMATCH" in model
+            or "MIRROR-DATA-DIFFER" in impl or "FORMS-DIFFER" in impl or "LOAD-DIFF" in impl):
         return False
     return impl == model
 
